@@ -24,7 +24,7 @@ theorem shaped_unpack {k : Kind} {m : Xml} (h : shaped k m = true) :
 /-- the merges on the `roCreate` children never produce a built-in exception on a well-formed
     running order and a schema-shaped message -/
 theorem nx_mergeRc (k : Kind) (rc base m : Xml)
-    (ht : storiesExc rc = none) (hb : m.find k.baseTag = some base) (hs : shaped k m = true) :
+    (hb : m.find k.baseTag = some base) (hs : shaped k m = true) :
     NX (mergeRc k rc base none) := by
   unfold shaped at hs
   simp only [hb, Bool.and_eq_true] at hs
@@ -65,7 +65,7 @@ theorem nx_mergeRc (k : Kind) (rc base m : Xml)
   case StoryInsert =>
     split
     · rename_i e h; exact nx_of_merge (findRequired_err h)
-    · simp only [ht]; exact nx_insertDedup _ _ _ _ _
+    · exact nx_insertDedup _ _ _ _ _
   case ItemInsert => exact nx_inStory _ _ _ (fun items => nx_insertBefore _ _ _ _)
   case StoryMove =>
     split
@@ -123,7 +123,7 @@ theorem nx_mergeRc (k : Kind) (rc base m : Xml)
   case EAStoryInsert =>
     split
     · rename_i e h; exact nx_of_merge (findTarget_err h)
-    · simp only [ht]; exact nx_insertDedup _ _ _ _ _
+    · exact nx_insertDedup _ _ _ _ _
   case EAItemInsert => exact nx_inStory _ _ _ (fun items => nx_insertBefore _ _ _ _)
   case EAStorySwap =>
     simp only at hs2
@@ -149,23 +149,21 @@ theorem nx_mergeRc (k : Kind) (rc base m : Xml)
 
 /-- C12 (merge step): adding a schema-shaped message of any of the 24 mergeable classes — IDs blank,
     unknown, repeated or self-referential — to any well-formed running order (stories with or without
-    timing metadata; numeric/parseable where present) either succeeds or raises a mosromgr exception:
+    timing metadata, readable or not: story inserts no longer evaluate it) either succeeds or raises a mosromgr exception:
     the outcome is never a built-in exception. -/
 theorem C12_add (i : MergeInput) (h : DomC12 i = true) : holdsC12 i (addK i.k i.d i.m) = true := by
   unfold DomC12 at h
   simp only [Bool.and_eq_true] at h
-  obtain ⟨⟨hwf, htm⟩, hsh⟩ := h
+  obtain ⟨hwf, hsh⟩ := h
   obtain ⟨rc, hrc⟩ := wfRO_unpack hwf
   obtain ⟨hmid, base, hb⟩ := shaped_unpack hsh
-  have ht : storiesExc rc = none := by
-    unfold TimingOk at htm; simp only [hrc] at htm; simpa using htm
   unfold holdsC12
   by_cases hc : completed i.d = true
   · simp [addK, hc]
   · have hc' : completed i.d = false := by simpa using hc
     by_cases hk : i.k.editsRc = true
     · rw [addK_editsRc i.k i.d i.m rc base hk hc' hrc hb, hmid]
-      have := nx_mergeRc i.k rc base i.m ht hb hsh
+      have := nx_mergeRc i.k rc base i.m hb hsh
       split
       · rename_i x hx; exact absurd hx (this x)
       · rfl
@@ -227,6 +225,18 @@ def exC12m : Xml := .node "mos" [] none none [.node "messageID" [] (some "7") no
 
 example : (match classify exC12m with | .ok .EAStorySwap => true | _ => false) = true ∧
     DomC12 ⟨exC12d, exC12m, .EAStorySwap⟩ = true ∧ (add exC12d exC12m).err = none := by decide
+
+/-- non-vacuity: a running order whose story duration is "nan" is inside the domain (`float("nan")`
+    returns; evaluating `ro.stories` raises nothing) -/
+example : storiesExc (Xml.node "roCreate" [] none none [Xml.node "story" [] none none
+    [Xml.node "storyID" [] (some "S") none [], Xml.node "mosExternalMetadata" [] none none
+      [Xml.node "mosPayload" [] none none [Xml.node "TextTime" [] (some "nan") none []]]]]) = none := by decide
+
+example : pyFloatAccepts "-inf" = true := by decide
+example : pyFloatAccepts " 1_000.5e-3 " = true := by decide
+example : pyFloatAccepts "1__0" = false := by decide
+example : pyFloatAccepts "0x10" = false := by decide
+example : pyFloatAccepts "1\x1f" = false := by decide
 
 end Mrm
 
